@@ -20,9 +20,12 @@ import (
 	"io"
 	"os"
 	"path/filepath"
+	"runtime"
 	"runtime/debug"
 	"sort"
+	"strings"
 	"sync"
+	"time"
 
 	mwdb "massnet.org/mass-wallet/masswallet/db"
 )
@@ -48,6 +51,15 @@ type faultDB struct {
 	hitStack string
 	kinds    map[string]int // calls per kind since the wrapper was created (statistics)
 	writeTx  int            // write transactions begun
+
+	// gate (crash engine): Start's last database access on the caller's goroutine is the View of
+	// initTaskChan; once it is seen, every later transaction (the worker's) waits until the gate is
+	// released and then fails - the re-queued tasks are verified but not run by the worker, the
+	// history's own importstep / removerun ops run them on the schedule of the uninterrupted run
+	gateArmed   bool
+	gated       bool
+	gateCh      chan struct{}
+	gateWaiters int
 }
 
 func newFaultDB(inner mwdb.DB, path string) *faultDB {
@@ -103,7 +115,68 @@ func (f *faultDB) tick(kind string) error {
 
 func (f *faultDB) Close() error { return f.inner.Close() }
 
+// armGate / releaseGate: see the field comment.
+func (f *faultDB) armGate() {
+	f.mu.Lock()
+	f.gateArmed, f.gated, f.gateCh, f.gateWaiters = true, false, make(chan struct{}), 0
+	f.mu.Unlock()
+}
+
+func (f *faultDB) releaseGate() {
+	f.mu.Lock()
+	if f.gateArmed {
+		f.gateArmed = false
+		close(f.gateCh)
+	}
+	f.mu.Unlock()
+}
+
+// gate blocks a transaction begun after initTaskChan; returns an error when it must not proceed.
+func (f *faultDB) gate(read bool) error {
+	f.mu.Lock()
+	if !f.gateArmed || f.paused {
+		f.mu.Unlock()
+		return nil
+	}
+	if !f.gated {
+		if read && callerHas("initTaskChan") {
+			f.gated = true // this View itself goes through
+		}
+		f.mu.Unlock()
+		return nil
+	}
+	ch := f.gateCh
+	f.gateWaiters++
+	f.mu.Unlock()
+	<-ch
+	return errInjected
+}
+
+func (f *faultDB) waiters() int {
+	f.mu.Lock()
+	defer f.mu.Unlock()
+	return f.gateWaiters
+}
+
+func callerHas(name string) bool {
+	pcs := make([]uintptr, 24)
+	n := runtime.Callers(3, pcs)
+	frames := runtime.CallersFrames(pcs[:n])
+	for {
+		fr, more := frames.Next()
+		if strings.Contains(fr.Function, name) {
+			return true
+		}
+		if !more {
+			return false
+		}
+	}
+}
+
 func (f *faultDB) BeginTx() (mwdb.DBTransaction, error) {
+	if err := f.gate(false); err != nil {
+		return nil, err
+	}
 	if err := f.tick("begin"); err != nil {
 		return nil, err
 	}
@@ -116,6 +189,9 @@ func (f *faultDB) BeginTx() (mwdb.DBTransaction, error) {
 }
 
 func (f *faultDB) BeginReadTx() (mwdb.ReadTransaction, error) {
+	if err := f.gate(true); err != nil {
+		return nil, err
+	}
 	if err := f.tick("begin"); err != nil {
 		return nil, err
 	}
@@ -283,8 +359,28 @@ func (b *faultBucket) NewIterator(s *mwdb.Range) mwdb.Iterator { return b.b.NewI
 
 // ---------------------------------------------------------------- directory helpers
 
-// forkDir copies the (flat) LevelDB directory src to dst file by file.
+// forkDir copies the (flat) LevelDB directory src to dst file by file. goleveldb compacts level 0 in
+// a background goroutine once a directory has been re-opened a few times (every open turns the
+// journal into a new table file); a copy taken while that runs could miss a file, so the copy is
+// repeated until the directory listing (names and sizes) is the same before and after it.
 func forkDir(src, dst string) error {
+	var err error
+	for try := 0; try < 40; try++ {
+		before := dirStamp(src)
+		err = forkDirOnce(src, dst)
+		if err == nil && dirStamp(src) == before {
+			return nil
+		}
+		os.RemoveAll(dst)
+		time.Sleep(time.Duration(1+try) * time.Millisecond)
+	}
+	if err == nil {
+		err = errors.New("wallet directory kept changing while it was copied")
+	}
+	return err
+}
+
+func forkDirOnce(src, dst string) error {
 	if err := os.MkdirAll(dst, 0700); err != nil {
 		return err
 	}
